@@ -5,6 +5,7 @@ import DesyncModel.Spec
 import DesyncModel.Tables.Push
 import DesyncModel.Tables.Wake
 import DesyncModel.Inv.ParkReach
+import DesyncModel.Inv.WakeReach
 
 namespace Desync.C06
 open Desync Gen
@@ -59,5 +60,37 @@ theorem only_the_parking_caller_writes_waitingForUnpark (st : QState) :
     ((wakeQueue st).1 = .waitingForUnpark → st = .waitingForUnpark) ∧ ((drainPending st).1 = .waitingForUnpark → st = .waitingForUnpark) ∧
     (wakeQueue .waitingForUnpark).1 = .waitingForUnpark ∧ wakeThread .waitingForUnpark = .running :=
   ⟨runOnePending_wfu, wakeQueue_wfu, drainPending_wfu, rfl, rfl⟩
+
+/-! ### the pool context: I_wake -/
+
+/-- **I_wake (pool context).**  In every state reachable without polling a returned future (`ReachableNT`: any number of objects,
+threads, `desync` / `sync` / `try_sync` / `future_desync` / `after` / `suspend` / resume / drop calls, any interleaving): a queue that a
+pool thread has parked in `WaitingForWake` has a suspended operation at its head, and for that operation the queue's own waker
+is still registered with the awaited event, or a `WakeQueue` wake-up for the queue is on its way (in a list of wakers being
+fired, or about to run `WakeQueue::wake`, which turns `WaitingForWake` into `Idle` and reschedules: `after_parking`).
+This is C06's "after it is parked" for the pool-thread context; `wake_between_poll_and_park_is_remembered` is
+"during the poll / while the queue is being parked". -/
+theorem parked_queue_has_its_wake_up {s : State} (hr : ReachableNT s) {q : Nat} {v : JobQ} (hv : s.qs[q]? = some v)
+    (hst : v.state = .waitingForWake) : ∃ j rest, v.jobs = j :: rest ∧ (Reg s q j ∨ Flight s q) := by
+  obtain ⟨j, rest, h1, h2⟩ := (ntWake_reachable hr).wake.parked q (by rw [qSt_of hv, hst])
+  rw [qjobs_of hv] at h1
+  exact ⟨j, rest, Option.some.inj h1, h2⟩
+
+/-- **A wake-up that fires between the poll and the parking decision is not lost.**  A pool thread that has polled the
+operation at the head of queue `q` (which registered the queue's waker) and is about to decide whether to park
+(`pdPending`: `drain`'s critical section after `requeue`) finds: the waker still registered, or the wake-up on its way, or the
+queue `AwokenWhileRunning` — in which case `drain` polls again instead of parking (`during_the_poll`). -/
+theorem wake_between_poll_and_park_is_remembered {s : State} (hr : ReachableNT s) {a p q : Nat} (hpc : s.pcAt a = .pdPending p q) :
+    ∃ j rest, s.qjobs q = some (j :: rest) ∧ (Reg s q j ∨ Flight s q ∨ s.qSt q = some .awokenWhileRunning) :=
+  (ntWake_reachable hr).wake.poll2 a q (by rw [hpc]; rfl)
+
+/-- the same, one critical section earlier: the job has been polled and is about to be put back at the head of the queue -/
+theorem wake_after_poll_is_remembered {s : State} (hr : ReachableNT s) {a p q j : Nat} (hpc : s.pcAt a = .pdRequeue p q j) :
+    Reg s q j ∨ Flight s q ∨ s.qSt q = some .awokenWhileRunning :=
+  (ntWake_reachable hr).wake.poll1 a q j (by rw [hpc]; rfl)
+
+/-- the executions the theorems above quantify over never enter the task-context code -/
+theorem no_task_context_without_polling {s : State} (hr : ReachableNT s) (b : Nat) : (s.pcAt b).noTask = true :=
+  (ntWake_reachable hr).nt.pcs b
 
 end Desync.C06
